@@ -21,12 +21,14 @@ ASSUMPTIONS = [
 
 
 class FamilySpec:
-    def __init__(self, name, props, run, functions=(), quick=True):
+    def __init__(self, name, props, run, functions=(), quick=True, optional=False):
         self.name = name
         self.props = set(props)
         self.run = run                # callable(prog, tier) -> harness.Family
         self.functions = list(functions)
         self.quick = quick            # False: thorough tier only
+        self.optional = optional      # True: an upgrade (unbounded arity); when the code leaves its
+                                      # supported shapes the bounded families still decide the property
 
 
 _PROG = None
@@ -69,7 +71,7 @@ def _worker(idx):
             if o.verdict is not None and o.verdict.status == "unknown":
                 r["reason"] = o.verdict.reason
             recs.append(r)
-        return {"family": spec.name, "props": sorted(spec.props), "functions": spec.functions,
+        return {"family": spec.name, "props": sorted(spec.props), "functions": spec.functions, "optional": spec.optional,
                 "error": fam.error, "paths": fam.paths, "stats": fam.stats, "obls": recs,
                 "explore_s": round(fam.seconds, 3), "wall_s": round(time.time() - t0, 3),
                 "bounded": fam.bounded, "extra": getattr(fam, "extra", None)}
